@@ -18,7 +18,7 @@ type bgLayer struct {
 }
 
 var (
-	bgImages      = []string{"url(a.png)", "url(b.png)", "url(c.png)", "none", "linear-gradient(red, blue)", "radial-gradient(circle, red, blue)"}
+	bgImages      = []string{"url(http://example.org/a.png)", "url(http://example.org/b.png)", "url(\"https://example.org/c.png\")", "none", "linear-gradient(red, blue)", "radial-gradient(circle, red, blue)"}
 	bgPositions   = []string{"left top", "10px 20px", "center", "right 5px bottom 10%", "30% 70%", "top"}
 	bgSizes       = []string{"cover", "contain", "10px 20px", "50% auto", "auto"}
 	bgRepeats     = []string{"repeat-x", "repeat-y", "no-repeat", "space", "round", "repeat", "space no-repeat"}
@@ -49,7 +49,25 @@ func orDefault(s, d string) string {
 	return s
 }
 
+func filterAccepted(prop string, xs []string) []string {
+	var out []string
+	for _, x := range xs {
+		if accepted(prop, x) {
+			out = append(out, x)
+		}
+	}
+	return out
+}
+
 func (rn *runner) backgrounds(r *rng.R, n int) {
+	// keep the component values the longhand validators accept alone
+	bgImages := filterAccepted("background-image", bgImages)
+	bgPositions := filterAccepted("background-position", bgPositions)
+	bgSizes := filterAccepted("background-size", bgSizes)
+	bgRepeats := filterAccepted("background-repeat", bgRepeats)
+	bgAttachments := filterAccepted("background-attachment", bgAttachments)
+	bgBoxes := filterAccepted("background-origin", bgBoxes)
+	rn.out.Dist["background:vocabulary"] = len(bgImages) + len(bgPositions) + len(bgSizes) + len(bgRepeats) + len(bgAttachments) + len(bgBoxes)
 	for i := 0; i < n; i++ {
 		sub := r.Sub()
 		nl := 1 + sub.Intn(4)
@@ -86,9 +104,11 @@ func (rn *runner) backgrounds(r *rng.R, n int) {
 				parts = append(parts, l.attachment)
 			}
 			if l.origin != "" {
-				parts = append(parts, l.origin)
+				// the two boxes are kept adjacent (the validator requires it)
 				if l.clip != "" {
-					parts = append(parts, l.clip)
+					parts = append(parts, l.origin+" "+l.clip)
+				} else {
+					parts = append(parts, l.origin)
 				}
 			}
 			if len(parts) == 0 {
